@@ -15,7 +15,7 @@ from .c15_programs import COVER, ERRORS, random_program
 
 TRUSTED = [
     "Coq 8.16.1 kernel (coqc, vm_compute); no axioms: every theorem is 'Closed under the global context'",
-    "translator vplib/translate/gen_sites_state.py: regex inventory of statics / OnceLock / locks / env / clock / randomness / HashMap-HashSet iteration over prqlc/src and prqlc-parser/src (cli, #[cfg(test)] modules and #[cfg(prqlc_verif)] hooks excluded); hash iteration is approximated by type annotations in the same file plus hash-typed struct field names",
+    "translator vplib/translate/gen_sites_state.py: regex inventory of statics / OnceLock / locks (and, per function that takes a static lock, the operations that can panic under it) / env / clock / randomness / HashMap-HashSet iteration over prqlc/src and prqlc-parser/src (cli, #[cfg(test)] modules and #[cfg(prqlc_verif)] hooks excluded); hash iteration is approximated by type annotations in the same file plus hash-typed struct field names",
     "modelled, not verified: Model/Globals.v (what a compilation does with CURRENT_LOG, the OnceLocks and PRQL_VERSION_OVERRIDE) and the assignment of each iteration site to a pattern of Model/Perm.v (vplib/props/c11_sites.py, from reading the source); both are validated by the determinism streams, not proved against Rust",
     "the result of a compilation is a function of its input and of what it reads from the modelled globals: Rust ownership + no `unsafe` (inventory has no `unsafe` rows) + no other statics (inventory obligation)",
     "PRQL_VERSION_OVERRIDE does not change while compilations run",
